@@ -76,8 +76,6 @@ pub fn get_listings_by_owner(
 pub fn get_whitelisted(deps: Deps, env: Env, owner: String) -> StdResult<MultiListingResponse> {
     let valid_owner = deps.api.addr_validate(owner.as_str())?;
 
-    let current_time = env.block.time.seconds();
-
     let search_whitelists: Vec<_> = listingz()
         .idx
         .whitelisted_buyer
@@ -88,7 +86,7 @@ pub fn get_whitelisted(deps: Deps, env: Env, owner: String) -> StdResult<MultiLi
         .filter_map(|entry| {
             let x = entry.1.clone();
             // Disregard entries that have no expiration, are expired, or are already closed
-            if x.expiration_time.filter(|&exp| exp.seconds() >= current_time).is_none()
+            if x.expiration_time.filter(|&exp| exp >= env.block.time).is_none()
                 || x.status == Status::Closed
             {
                 None
@@ -133,7 +131,7 @@ pub fn get_listings_for_market(
         .filter_map(|entry| {
             let x = entry.1.clone();
             // Disregard entries that have no expiration, are expired, or are already Closed
-            if x.expiration_time.filter(|&exp| exp.seconds() >= current_time).is_none()
+            if x.expiration_time.filter(|&exp| exp >= env.block.time).is_none()
                 || x.status == Status::Closed
             {
                 None
